@@ -270,7 +270,7 @@ def write_coqproject():
     (COQ / '_CoqProject').write_text('-Q . PB\n-arg -w -arg -all\n' + '\n'.join(files) + '\n')
 
 
-def build(clean=False, jobs=16, timeout=3000):
+def build(clean=False, jobs=16, timeout=3000, keep_going=False):
     """Full .vo build of the development (incremental unless clean)."""
     write_coqproject()
     if clean:
@@ -279,7 +279,7 @@ def build(clean=False, jobs=16, timeout=3000):
     rc, out = sh(['coq_makefile', '-f', '_CoqProject', '-o', 'Makefile'], cwd=COQ, timeout=120)
     if rc != 0:
         return False, out
-    rc, out = sh(['timeout', str(timeout), 'make', '-j%d' % jobs], cwd=COQ, timeout=timeout + 30)
+    rc, out = sh(['timeout', str(timeout), 'make', '-j%d' % jobs] + (['-k'] if keep_going else []), cwd=COQ, timeout=timeout + 30)
     return rc == 0, out
 
 
